@@ -61,8 +61,11 @@ edition = "2021"
 [dependencies]
 tsm_lib = {{ path = "../tsm_lib", default-features = false, features = [{featlist}] }}
 ''')
+        from . import build
+        case_src, _ = build.serde_case_path()
         _write(os.path.join(helper, 'src', 'main.rs'),
-               _read(os.path.join(NATIVE, 'helper_macros.rs')) + _read(os.path.join(NATIVE, 'helper_common.rs')))
+               f'#![allow(dead_code)]\n#[path = "{case_src}"]\nmod case;\n'
+               + _read(os.path.join(NATIVE, 'helper_macros.rs')) + _read(os.path.join(NATIVE, 'helper_common.rs')))
     else:
         lib = os.path.join(scratch, 'ts-rs')
         shutil.copytree(os.path.join(repo, 'ts-rs', 'src'), os.path.join(lib, 'src'))
